@@ -341,14 +341,13 @@ _CACHE = {}
 
 
 def enc_analysis(ctx) -> Analysis:
-    a = _CACHE.get(id(ctx))
+    a = getattr(ctx, "_enc_analysis", None)       # cached on the context itself (object ids are reused)
     if a is None:
-        _CACHE.clear()
         mods = ("xandikos.webdav", "xandikos.web", "xandikos.caldav", "xandikos.carddav", "xandikos.sync", "xandikos.davcommon",
                 "xandikos.scheduling", "xandikos.infit", "xandikos.access", "xandikos.quota", "xandikos.timezones", "xandikos.xmpp",
                 "xandikos.apache", "xandikos.server_info")
         a = Analysis(ctx, EncDomain(), modules=mods)
-        _CACHE[id(ctx)] = a
+        ctx._enc_analysis = a
         ctx.note("encoding-state provenance: %d functions, fixed point after %d rounds" % (len(a.funcs), a.rounds))
     return a
 
